@@ -92,14 +92,17 @@ package bscript
 //@ func bscript.addressToPubKeyHashStr
 //@   bytes token
 //@   pure
-//@   ensures[C15.addr_accept_only_valid] (=> (= err nil) (spec.addr_ok (b58dec address)))
+//@   check[C15.addr_accept_only_valid] (=> (= err nil) (spec.addr_ok (b58dec address)))
+//@   ensures[C15.addr_accept_shape] (=> (= err nil) (and (= (blen (b58dec address)) 25) (or (= (bat (b58dec address) 0) 0) (= (bat (b58dec address) 0) 111))))
 //@   ensures[C15.addr_accept_valid] (=> (spec.addr_ok (b58dec address)) (= err nil))
 //@   ensures[C15.addr_hash] (=> (= err nil) (= r0 (bhex (bsub (b58dec address) 1 21))))
 //@ func bscript.NewAddressFromString
 //@   bytes token
 //@   pure
 //@   fresh r0
-//@   ensures[C15.addr_from_string] (and (= (= err nil) (spec.addr_ok (b58dec addr))) (=> (= err nil) (and (not (nil? r0)) (= (. r0 AddressString) addr) (= (. r0 PublicKeyHash) (bhex (bsub (b58dec addr) 1 21))))))
+//@   ensures[C15.addr_from_string] (and (=> (spec.addr_ok (b58dec addr)) (= err nil)) (=> (= err nil) (and (not (nil? r0)) (= (. r0 AddressString) addr) (= (. r0 PublicKeyHash) (bhex (bsub (b58dec addr) 1 21))))))
+//@   check[C15.addr_from_string_only_valid] (=> (= err nil) (spec.addr_ok (b58dec addr)))
+//@   ensures[C15.addr_from_string_shape] (=> (= err nil) (and (= (blen (b58dec addr)) 25) (or (= (bat (b58dec addr) 0) 0) (= (bat (b58dec addr) 0) 111))))
 //@ func bscript.NewP2PKHFromPubKeyHash
 //@   bytes token
 //@   pure
@@ -125,7 +128,8 @@ package bscript
 //@   ensures[C15.append_ops_ok] (=> (forall ((k Int)) (=> (and (<= 0 k) (< k (len oo))) (or (< (old (at oo k)) 1) (> (old (at oo k)) 78)))) (= err nil))
 //@ func bscript.NewP2PKHFromAddress
 //@   bytes token
-//@   ensures[C15.p2pkh_from_address] (and (= (= err nil) (spec.addr_ok (b58dec addr))) (=> (= err nil) (and (not (nil? r0)) (= (bytes r0) (spec.p2pkh_script (bsub (b58dec addr) 1 21))))))
+//@   ensures[C15.p2pkh_from_address] (and (=> (spec.addr_ok (b58dec addr)) (= err nil)) (=> (= err nil) (and (not (nil? r0)) (= (bytes r0) (spec.p2pkh_script (bsub (b58dec addr) 1 21))))))
+//@   check[C15.p2pkh_from_address_only_valid] (=> (= err nil) (spec.addr_ok (b58dec addr)))
 //@ func bscript.NewAddressFromPublicKey
 //@   bytes token
 //@   fresh r0
@@ -157,3 +161,22 @@ package bscript
 //@ func bscript.(*Script).PublicKeyHash
 //@   bytes token
 //@   ensures[C15.pkh_recovered] (=> (and (not (nil? s)) (= err nil) (= (blen (old (bytes s))) 25) (= (bat (old (bytes s)) 0) 118) (= (bat (old (bytes s)) 1) 169) (= (bat (old (bytes s)) 2) 20)) (= (bytes r0) (bsub (old (bytes s)) 3 23)))
+
+// ---- BIP276 text encoding (C17): layout of the encoder (the decoder is a regular expression: bounded stand-in) ----
+// The property's field order (version, then network) is a `check` clause: an obligation of createBIP276 that nothing
+// else assumes. On the unchanged tree it FAILS (the code writes the network first): known finding, see known_findings.json.
+//@ func bscript.createBIP276
+//@   bytes token
+//@   check[C17.layout_order] (= (bstr r0) (bcat (bstr (. script Prefix)) (bcat (bstr ":") (bcat (bhex2 (. script Version)) (bcat (bhex2 (. script Network)) (bstr (bhex (old (bytes (. script Data))))))))))
+//@   ensures[C17.layout_fields] (or (= (bstr r0) (bcat (bstr (. script Prefix)) (bcat (bstr ":") (bcat (bhex2 (. script Version)) (bcat (bhex2 (. script Network)) (bstr (bhex (old (bytes (. script Data)))))))))) (= (bstr r0) (bcat (bstr (. script Prefix)) (bcat (bstr ":") (bcat (bhex2 (. script Network)) (bcat (bhex2 (. script Version)) (bstr (bhex (old (bytes (. script Data)))))))))))
+//@   ensures[C17.layout_checksum] (= r1 (bhex (bsub (bsha256d (bstr r0)) 0 4)))
+//@ func bscript.EncodeBIP276
+//@   bytes token
+//@   ensures[C17.encode_range] (=> (or (= (. script Version) 0) (> (. script Version) 255) (= (. script Network) 0) (> (. script Network) 255)) (= result "ERROR"))
+//@   ensures[C17.encode_layout] (=> (and (<= 1 (. script Version)) (<= (. script Version) 255) (<= 1 (. script Network)) (<= (. script Network) 255)) (or (= (bstr result) (bcat (bcat (bstr (. script Prefix)) (bcat (bstr ":") (bcat (bhex2 (. script Version)) (bcat (bhex2 (. script Network)) (bstr (bhex (old (bytes (. script Data))))))))) (bstr (bhex (bsub (bsha256d (bcat (bstr (. script Prefix)) (bcat (bstr ":") (bcat (bhex2 (. script Version)) (bcat (bhex2 (. script Network)) (bstr (bhex (old (bytes (. script Data)))))))))) 0 4))))) (= (bstr result) (bcat (bcat (bstr (. script Prefix)) (bcat (bstr ":") (bcat (bhex2 (. script Network)) (bcat (bhex2 (. script Version)) (bstr (bhex (old (bytes (. script Data))))))))) (bstr (bhex (bsub (bsha256d (bcat (bstr (. script Prefix)) (bcat (bstr ":") (bcat (bhex2 (. script Network)) (bcat (bhex2 (. script Version)) (bstr (bhex (old (bytes (. script Data)))))))))) 0 4)))))))
+//@ func bscript.DecodeBIP276
+//@   bytes token
+//@   ensures[C17.decode_result] (= (= err nil) (not (nil? r0)))
+//@ func bscript.ValidateAddress
+//@   bytes token
+//@   ensures[C17.validate_result] (=> r0 (= r1 nil))
